@@ -1,2 +1,150 @@
-/-! Stub driver: the model driver for this property is not built yet. -/
-def main : IO Unit := IO.println "unimplemented"
+import JoblibModel.ZlibFile
+import JoblibModel.IOUtil
+/-! Driver for C13 (stateful: one file object at a time).
+
+Requests
+* `open HEX L1 L2 …`     open for reading: payload (`-` = empty) and the lengths of the decompressed chunks
+                         `_fill_buffer` sees (must sum to the payload length) → `ok`
+* `read N` | `readinto N` | `readline` | `tell` | `seek OFF WHENCE` | `close`
+* `wopen HEX`            open for writing; HEX = the bytes the following writes slice from → `ok`
+* `write OFF LEN`        `write(payload[OFF:OFF+LEN])`
+* `wclose`               `close()` in write mode → `closed handed=<#compress calls> <bytes> flushes=<n>`
+  (the model compressor is the identity, so `<bytes>` describes the concatenation handed to it)
+Replies: `b LEN xHEX|aADLER32` (bytes; hex up to 16 bytes, else adler32), `i LEN …` (readinto), `n POS`,
+`none`, `exc <ClassName>`, `hang`, `bad-op`. -/
+open JoblibModel JoblibModel.ZlibFile JoblibModel.IOUtil
+
+def hexVal (c : Char) : Option Nat :=
+  if '0' ≤ c ∧ c ≤ '9' then some (c.toNat - '0'.toNat)
+  else if 'a' ≤ c ∧ c ≤ 'f' then some (c.toNat - 'a'.toNat + 10)
+  else none
+
+def parseHexList : List Char → Option Bytes
+  | [] => some []
+  | a :: b :: r => do
+    let x ← hexVal a
+    let y ← hexVal b
+    let rest ← parseHexList r
+    pure (UInt8.ofNat (16 * x + y) :: rest)
+  | _ => none
+
+def parseHex (s : String) : Option Bytes :=
+  if s = "-" then some [] else parseHexList s.toList
+
+def hexDigit (n : Nat) : Char :=
+  if n < 10 then Char.ofNat ('0'.toNat + n) else Char.ofNat ('a'.toNat + n - 10)
+
+def toHex (b : Bytes) : String :=
+  String.ofList (b.flatMap (fun x => [hexDigit (x.toNat / 16), hexDigit (x.toNat % 16)]))
+
+def adler32 (b : Bytes) : Nat :=
+  let r := b.foldl (fun (p : Nat × Nat) x =>
+    let a := (p.1 + x.toNat) % 65521
+    (a, (p.2 + a) % 65521)) (1, 0)
+  r.2 * 65536 + r.1
+
+def showBytes (b : Bytes) : String :=
+  toString b.length ++ " " ++ (if b.length ≤ 16 then "x" ++ toHex b else "a" ++ toString (adler32 b))
+
+def excName : ExcKind → String
+  | .valueError => "ValueError"
+  | .unsupportedOperation => "UnsupportedOperation"
+  | .zlibError => "error"
+  | .eofError => "EOFError"
+
+def showOut : Out → String
+  | .bytes b => "b " ++ showBytes b
+  | .into b => "i " ++ showBytes b
+  | .num n => "n " ++ toString n
+  | .none => "none"
+  | .exc e => "exc " ++ excName e
+  | .hang => "hang"
+
+/-- Chunk lengths → chunks of the payload; `none` unless they add up exactly. -/
+def splitChunks : Bytes → List Nat → Option (List Bytes)
+  | [], [] => some []
+  | _ :: _, [] => none
+  | p, n :: ns =>
+    if n ≤ p.length then (splitChunks (p.drop n) ns).map (fun r => p.take n :: r) else none
+
+def identityCompressor : Compressor Unit := ⟨fun _ d => ((), d), fun _ => []⟩
+
+inductive St
+  | idle
+  | rd (fuel : Nat) (f : ZFile ChunkSrc)
+  | wr (payload : Bytes) (w : WFile Unit)
+
+def parseOp : List String → Option Op
+  | ["read", n] => n.toInt?.map .read
+  | ["readinto", n] => n.toNat?.map .readinto
+  | ["readline"] => some .readline
+  | ["tell"] => some .tell
+  | ["seek", o, w] => do
+    let o ← o.toInt?
+    let w ← w.toInt?
+    pure (.seek o w)
+  | ["close"] => some .close
+  | _ => none
+
+def handle (st : St) (line : String) : St × String :=
+  match tokens line with
+  | "open" :: hex :: lens =>
+    match parseHex hex, lens.mapM String.toNat? with
+    | some p, some ns =>
+      match splitChunks p ns with
+      | some cs => (.rd (cs.length + p.length + 2) (openChunks cs), "ok")
+      | none => (st, "bad-op")
+    | _, _ => (st, "bad-op")
+  | ["wopen", hex] =>
+    match parseHex hex with
+    | some p => (.wr p (openWrite ()), "ok")
+    | none => (st, "bad-op")
+  | toks =>
+    match st with
+    | .idle => (st, "bad-op")
+    | .rd fuel f =>
+      match toks with
+      | ["write", o, n] =>
+        match o.toNat?, n.toNat? with
+        | some _, some _ =>
+          -- `_check_can_write` on a file that is not open for writing
+          match (⟨f.mode, f.pos, (), [], [], 0⟩ : WFile Unit).write identityCompressor [] with
+          | .error (.exc e) => (st, "exc " ++ excName e)
+          | _ => (st, "bad-op")
+        | _, _ => (st, "bad-op")
+      | _ =>
+        match parseOp toks with
+        | some op =>
+          let (f', o) := applyOp chunkSource fuel f op
+          (.rd fuel f', showOut o)
+        | none => (st, "bad-op")
+    | .wr p w =>
+      match toks with
+      | ["write", o, n] =>
+        match o.toNat?, n.toNat? with
+        | some o, some n =>
+          if o + n ≤ p.length then
+            match w.write identityCompressor ((p.drop o).take n) with
+            | .ok (w', k) => (.wr p w', "n " ++ toString k)
+            | .error (.exc e) => (st, "exc " ++ excName e)
+            | .error .outOfFuel => (st, "hang")
+          else (st, "bad-op")
+        | _, _ => (st, "bad-op")
+      | ["wclose"] =>
+        let w' := w.close identityCompressor
+        (.wr p w', "closed handed=" ++ toString w'.handed.length ++ " " ++ showBytes w'.fp
+          ++ " flushes=" ++ toString w'.flushes)
+      | ["tell"] =>
+        match w.mode with
+        | .closed => (st, "exc ValueError")
+        | _ => (st, "n " ++ toString w.pos)
+      | _ =>
+        match parseOp toks with
+        | some .close => (.wr p (w.close identityCompressor), "none")
+        | some op =>
+          -- a read-side method on a file in mode "wb" (or closed): only the mode check matters
+          let (_, o) := applyOp chunkSource 1 { openChunks [] with mode := w.mode } op
+          (st, showOut o)
+        | none => (st, "bad-op")
+
+def main : IO Unit := stateLoop St.idle handle
